@@ -64,8 +64,10 @@ def scan(P, scope=lambda b: True):
         if not scope(b):
             continue
         for e in b.calls():
-            if not (e.is_atomic and e.args) or e.method in ("new", "get_mut", "into_inner"):
+            if not (e.is_atomic and e.args) or e.method in ("new", "get_mut", "into_inner") or e.is_telemetry:
                 continue
+            if e.method == "load" and b.only_formatted(e):
+                continue  # value only printed by diagnostics logging
             fld = b.path_of_operand(e.args[0]).rsplit(".", 1)[-1]
             if fld in EXCLUDED_FIELDS:
                 continue
